@@ -90,6 +90,7 @@ UNITS.update({
     "U-H2P": {
         "backend": "verus",
         "template": "contracts/h2p.vc",
+        "search": "search-h2p",
         "trusted": ["Verus 0.2026.09.13 / Z3; vstd",
                     "UNCHECKED: sha3::Shake256 computes SHAKE-256; modelled as an abstract byte stream shake(input, i) read two bytes at a time",
                     "Felt::new contract (discharged by Kani harness felt_new_contract in U-FELT)",
@@ -141,6 +142,7 @@ UNITS.update({
     "U-PK": {
         "backend": "verus",
         "template": "contracts/pk.vc",
+        "models": ["model-bitvec"],
         "search": "search-pk",
         "trusted": ["Verus 0.2026.09.13 / Z3; vstd",
                     "model of bit_vec::BitVec (from_bytes, push, to_bytes, len, index) and of itertools chunks over its iterator (vx_chunk / vx_nchunks)",
@@ -164,6 +166,7 @@ UNITS.update({
     "U-SIGN": {
         "backend": "verus",
         "template": "contracts/sign.vc",
+        "search": "search-sign",
         "trusted": ["Verus 0.2026.09.13 / Z3; vstd",
                     "UNCHECKED: rand::thread_rng modelled as an abstract ambient byte stream (freshness, uniformity and per-thread independence of that stream are properties of `rand` and the OS)",
                     "D4: the floating-point pipeline of sign (target, ffSampling, (t-z)B, norm rejection loop, inverse FFT, rounding) is outside the verified slice: uncontracted external calls",
@@ -177,6 +180,7 @@ UNITS.update({
     "U-KEYGEN": {
         "backend": "verus",
         "template": "contracts/keygen.vc",
+        "search": "search-keygen",
         "trusted": ["Verus 0.2026.09.13 / Z3; vstd",
                     "Polynomial fft / ifft / hadamard_div contracts (U-NTT-POLY, U-BATCHINV), table_facts (U-TAB), existence of inverses (U-FELT-INV), Felt::new / Neg / is_zero (U-FELT)",
                     "Polynomial::map is the element-wise map (its one-line definition in polynomial.rs is compared textually on every run)",
@@ -207,6 +211,8 @@ UNITS.update({
     "U-SK": {
         "backend": "verus",
         "template": "contracts/sk.vc",
+        "models": ["model-bitvec"],
+        "search": "search-sk",
         "trusted": ["Verus 0.2026.09.13 / Z3; vstd",
                     "model of bit_vec::BitVec and of itertools chunks over its iterator with skip/take (vx_chunk / vx_nchunks)",
                     "secret-key field codec contracts (discharged by Kani in U-SKF on the real BitVec)",
@@ -220,6 +226,7 @@ UNITS.update({
     "U-CODEC": {
         "backend": "verus",
         "template": "contracts/codec.vc",
+        "models": ["model-bitvec"],
         "search": "search-codec",
         "trusted": ["Verus 0.2026.09.13 / Z3; vstd specifications of Vec and slices",
                     "model of bit_vec::BitVec (from_bytes = MSB-first bits, len, index, get)",
